@@ -252,6 +252,8 @@ def run(ck, tier):
     run_fov(ck, F)
     pairs.check(ck, F, "C12.buffer-offset-pair", ["arrow_arith"], 8)
     pairs.check_cross(ck, F, "C12.validity-offset-slots", ["arrow_arith", "arrow_array"], 2)
+    from . import kleene
+    kleene.check(ck, F, "C12.kleene-truth-table", [("arrow_arith::boolean::and_kleene", "and"), ("arrow_arith::boolean::or_kleene", "or")], 8)
     ck.note("Decided: routing of checked/wrapping primitives for 12 native types x 14 methods, absence of wrapping primitives in checked "
             "contexts of arrow_arith, fallible closures applied to valid slots only. Not decided: exactness of i256/decimal formulas, Kleene logic.")
     return F.info
